@@ -12,6 +12,8 @@ def parseArg (s : String) : Option Arg :=
   match s.splitOn ":" with
   | ["c", h] => h.toNat?.map Arg.child
   | ["i", n] => n.toInt?.map Arg.int
+  | ["f", b] => b.toNat?.map Arg.float
+  | ["h", n] => n.toInt?.map Arg.hashed
   | ["s", hx] =>   -- hex encoded utf8
     let cs := hx.toList
     let rec go : List Char → List Nat → Option (List Nat)
